@@ -31,12 +31,13 @@ type Grease struct {
 	Arg  int  `json:"arg,omitempty"`  // length of an extra (long) argument on the stanza line
 	Bare bool `json:"bare,omitempty"` // the stanzas carry NO arguments at all (only a type)
 	NArg int  `json:"narg,omitempty"` // further short arguments on the stanza line (stanzas with 6..22 arguments)
+	Dash int  `json:"dash,omitempty"` // the footer marker "---" inside the stanza line: 1 in an extra argument ("slot---7"), 2 in the type, 3 as an argument of its own
 	App  int  `json:"app,omitempty"`  // the recipient appends this many bytes to the file-key slice it was handed (msg := append(fileKey, ctx...)): legal, and harmless while the slice has no spare capacity
 }
 
 // Recipient builds the sim-owned recipient the description stands for.
 func (g *Grease) Recipient() *world.GreaseRecipient {
-	return &world.GreaseRecipient{N: g.N, BodyLen: g.Body, Tag: g.Tag, ArgLen: g.Arg, Append: g.App, NArgs: g.NArg, Bare: g.Bare}
+	return &world.GreaseRecipient{N: g.N, BodyLen: g.Body, Tag: g.Tag, ArgLen: g.Arg, Append: g.App, NArgs: g.NArg, Bare: g.Bare, Dash: g.Dash}
 }
 
 func (r Recip) String() string {
@@ -45,6 +46,9 @@ func (r Recip) String() string {
 	}
 	if r.Grease.Bare {
 		return fmt.Sprintf("g%dx%dbare", r.Grease.N, r.Grease.Body)
+	}
+	if r.Grease.Dash > 0 {
+		return fmt.Sprintf("g%dx%da%dn%ddash%d", r.Grease.N, r.Grease.Body, r.Grease.Arg, r.Grease.NArg, r.Grease.Dash)
 	}
 	if r.Grease.Arg > 0 || r.Grease.NArg > 0 {
 		return fmt.Sprintf("g%dx%da%dn%d", r.Grease.N, r.Grease.Body, r.Grease.Arg, r.Grease.NArg)
@@ -135,6 +139,12 @@ func GenRecips(r *core.RNG, max int, allowRSA, allowScrypt bool) []Recip {
 				}
 			} else if r.Chance(1, 8) {
 				g.NArg = r.Pick(3, 4, 5, 8, 20)
+				if g.N == 0 {
+					g.N = 1
+				}
+			}
+			if !g.Bare && r.Chance(1, 7) {
+				g.Dash = r.Range(1, 3)
 				if g.N == 0 {
 					g.N = 1
 				}
